@@ -175,7 +175,7 @@ const DURS: &[(&str, u64, u32)] = &[
     ("7ns", 0, 7),
 ];
 
-const LABELS: &[&str] = &["mock", "pg", "a-b", "x_1", "日本", "retry1", "nosort2"];
+const LABELS: &[&str] = &["mock", "pg", "a-b", "x_1", "日本", "retry1", "nosort2", "ROWSORT", "NoSort", "Valuesort", "ON"];
 const NAMES: &[&str] = &["default", "a", "A", "conn-1", "Default", "é"];
 const REGEX_TOKS: &[&str] = &["boom", "a.*b", "\\(x\\)", "[0-9]+", "x", "retry", "backoff", "3", "é+"];
 const ML_TEXTS: &[&str] = &["boom", "line1\nline2", "a\n\nb", "  indented\nx", "x\n \ny", "# hash", "----", "a\n\nb\n\nc", ""];
